@@ -317,6 +317,41 @@ def run(ctx):
                 if len(ps) != len(qs) or any(min(dist(p, q) for q in qs) > 0.005 for p in ps):
                     obad.append((name, k, "hydrogens on %r differ: %r vs %r" % (key, ps[:2], qs[:2]), text))
                     break
+    # hydrogens supplied in the input (-k): nothing is added on top of a full complement, and a partial one is topped up exactly
+    from . import c04
+    kbad = []
+    for name, text in inputs:
+        if not name.startswith("gen"):
+            continue
+        base = observe.run(text, [], want_text=False)
+        if base.error or len(base.mol.conformation_names) != 1:
+            continue
+        hl = c04.dump_with_h(base)
+        nh0 = sum(1 for l in hl if pdbgen.is_atom(l) and l[12:16].strip().startswith("H"))
+        if nh0 == 0:
+            continue
+        hidx = [i for i, l in enumerate(hl) if pdbgen.is_atom(l) and l[12:16].strip().startswith("H")]
+        drop = set(rnd.sample(hidx, min(len(hidx), rnd.randint(1, 4))))
+        for label, lines2 in (("all hydrogens supplied", hl), ("%d hydrogens removed" % len(drop), [l for i, l in enumerate(hl) if i not in drop])):
+            o = observe.run(pdbgen.text(lines2), ["-k"], want_text=False, capture_log=True)
+            ctx.case(key=(name, "keep", label, hash(text)), nontrivial=True)
+            ctx.count("keep-protons runs (%s)" % ("full" if lines2 is hl else "partial"))
+            if o.error:
+                kbad.append((name, label, ["error %r" % (o.error,)], pdbgen.text(lines2)))
+                continue
+            conf = o.mol.conformations[o.mol.conformation_names[0]]
+            nh = sum(1 for a in conf.atoms if a.element == 'H')
+            d = []
+            if nh != nh0:
+                d.append("%d hydrogens after the run, the full complement has %d" % (nh, nh0))
+            given = {(round(pdbgen.coords(l)[0], 3), round(pdbgen.coords(l)[1], 3), round(pdbgen.coords(l)[2], 3)) for l in lines2 if pdbgen.is_atom(l) and l[12:16].strip().startswith("H")}
+            probs, _ = structure_problems(o, given)
+            d += probs[:2]
+            if d:
+                kbad.append((name, label, d[:3], pdbgen.text(lines2)))
+    for b in kbad[:2]:
+        ctx.violate("keep-protons:" + b[1].split(" ")[-1], "%s with -k, %s: %s" % (b[0], b[1], "; ".join(b[2])), dict(pdb=b[3], args=["-k"], problems=b[2]))
+    ctx.oblige("spec: with --keep-protons a full complement of input hydrogens is left as it is and a partial one is completed exactly", not kbad, str([(b[0], b[1], b[2][:1]) for b in kbad[:2]]))
     # bonds exactly along a coordinate axis (under --protonate-all every terminal atom is protonated)
     for i in range(12 if ctx.quick() else 120):
         lines, ids = pdbgen.multichain(rnd, nchains=1)
